@@ -4393,6 +4393,8 @@ class ParseCtx:
         for entry in reversed(self.bound_argument_stack):
             if (context, name) in entry:
                 return entry[(context, name)]
+            if any(bound_name == name for _, bound_name in entry):
+                break # an argument of another kind with this name in an inner macro hides the outer macros' arguments
         # otherwise, try and find globally 
         if context not in [MacroArgumentKind.MACRO, MacroArgumentKind.LOOP, MacroArgumentKind.HOOK, MacroArgumentKind.OUT, MacroArgumentKind.FINISHCODE, MacroArgumentKind.YIELDCODE]:
             raise UndefinedReferenceError("named expression", from_tree)
